@@ -325,20 +325,22 @@ theorem dynGas_call (gc : GasCfg) (f : DynFn) (s : List Word) (m m' : Mem) (ms g
 def reqGas : Req → Nat
   | .call _ _ _ _ gas _ _ _ => gas
   | .create _ _ _ gas => gas
+  | .authcall _ _ _ _ gas _ _ => gas
 
 /-- what an `invoke` can be: a create forwarding all but one 64th (and deducting it),
     or a call forwarding `callGasTemp`, plus the 2300 stipend only for CALL/CALLCODE with value -/
 def InvokeOk (e : Exec) (fr : Frame) (args : List Word) (cgt : Nat) (r : Req) (d : Nat) : Prop :=
   ((e = .create ∨ e = .create2) ∧ d = wsub fr.gas (fr.gas / 64) ∧ reqGas r = d ∧ (∃ s v i, r = .create s v i d)) ∨
   (∃ k, e = .call k ∧ d = 0 ∧ (∃ a v i ro rs io, r = .call k a v i (reqGas r) ro rs io) ∧
-    (reqGas r = cgt ∨ (reqGas r = wadd cgt 2300 ∧ (k = .call ∨ k = .callcode) ∧ args.getD 2 0 ≠ 0)))
+    (reqGas r = cgt ∨ (reqGas r = wadd cgt 2300 ∧ (k = .call ∨ k = .callcode) ∧ args.getD 2 0 ≠ 0))) ∨
+  (e = .authcall ∧ d = 0 ∧ reqGas r = cgt)
 
 set_option hygiene false in
 macro "invoke_cases" : tactic => `(tactic|
   (simp only [execOp] at h <;> (repeat' split at h) <;> (first | (cases h; done) | skip)))
 
 def Exec.invokes : Exec → Bool
-  | .call _ | .create | .create2 => true
+  | .call _ | .create | .create2 | .authcall => true
   | _ => false
 
 set_option maxHeartbeats 1000000 in
@@ -349,8 +351,16 @@ theorem execOp_invoke_other (cx : Ctx) (ro : Bool) (e : Exec) (fr : Frame) (args
   | call k => simp [Exec.invokes] at he
   | create => simp [Exec.invokes] at he
   | create2 => simp [Exec.invokes] at he
+  | authcall => simp [Exec.invokes] at he
   | copy o => cases o <;> invoke_cases
   | _ => invoke_cases
+
+theorem execOp_invoke_authcall (cx : Ctx) (ro : Bool) (fr : Frame) (args : List Word) (g : Global) (cgt : Nat)
+    (r : Req) (d : Nat) (g' : Global) (h : execOp cx ro .authcall fr args g cgt = .invoke r d g') :
+    d = 0 ∧ reqGas r = cgt := by
+  invoke_cases
+  cases h
+  exact ⟨rfl, rfl⟩
 
 set_option maxHeartbeats 1000000 in
 theorem execOp_invoke_call (cx : Ctx) (ro : Bool) (k : CallKind) (fr : Frame) (args : List Word) (g : Global) (cgt : Nat)
@@ -394,8 +404,13 @@ theorem execOp_invoke (cx : Ctx) (ro : Bool) (e : Exec) (fr : Frame) (args : Lis
     · right
       cases e with
       | call k =>
+        left
         obtain ⟨h1, h2, h3⟩ := execOp_invoke_call cx ro k fr args g cgt r d g' h
         exact ⟨k, rfl, h1, h2, h3⟩
+      | authcall =>
+        right
+        obtain ⟨h1, h2⟩ := execOp_invoke_authcall cx ro fr args g cgt r d g' h
+        exact ⟨rfl, h1, h2⟩
       | create => simp at hc
       | create2 => simp at hc
       | _ => simp [Exec.invokes] at he
@@ -465,15 +480,8 @@ theorem runPrecompile_good (hP : ErrPred P) (addr : Nat) (input : BA) (gas : Nat
     (runPrecompile addr input gas g).gas ≤ gas ∧ P (runPrecompile addr input gas g).err := by
   unfold runPrecompile
   simp only
-  split
-  · exact ⟨by simp, hP _ (by simp)⟩
-  · split
-    · exact ⟨by simp, hP _ (by simp)⟩
-    · split
-      · split
-        · exact ⟨by simp, hP _ (by simp)⟩
-        · exact ⟨by simp, hP _ (by simp)⟩
-      · exact ⟨by simp, hP _ (by simp)⟩
+  repeat' split
+  all_goals (first | exact ⟨Nat.zero_le _, hP _ (by simp)⟩ | exact ⟨Nat.sub_le _ _, hP _ (by simp)⟩)
 
 set_option maxHeartbeats 2000000 in
 theorem evmCall_good {run : Runner} {G : Nat} (hP : ErrPred P) (hr : GoodRun P run G) (depth : Nat) (ro : Bool) (k : CallKind)
@@ -534,12 +542,25 @@ theorem evmCreate_good {run : Runner} {G : Nat} (hP : ErrPred P) (cx : Ctx) (hr 
     | (exact ⟨Nat.zero_le _, hP _ (by simp)⟩)
     | (apply createFinish_good hP; exact runContract_good hP hr _ _ _ _ hg rfl))
 
+set_option maxHeartbeats 2000000 in
+theorem evmAuthCall_good {run : Runner} {G : Nat} (hP : ErrPred P) (cx : Ctx) (hr : GoodRun P run G) (depth : Nat) (ro : Bool)
+    (auth addr : Nat) (value : Word) (input : BA) (gas : Nat) (g : Global) (hg : gas ≤ G) :
+    GoodRes P gas (evmAuthCall cx run depth ro auth addr value input gas g) := by
+  unfold evmAuthCall
+  simp only
+  repeat' split
+  all_goals (first
+    | (exact ⟨Nat.le_refl _, hP _ (by simp)⟩)
+    | (apply finishCallRes_good hP; exact runPrecompile_good hP _ _ _ _)
+    | (apply finishCallRes_good hP; exact runContract_good hP hr _ _ _ _ hg rfl))
+
 theorem doInvoke_good {run : Runner} {G : Nat} (hP : ErrPred P) (cx : Ctx) (hr : GoodRun P run G) (depth : Nat) (ro : Bool)
     (fr : Frame) (r : Req) (g : Global) (hg : reqGas r ≤ G) :
     GoodRes P (reqGas r) (doInvoke cx run depth ro fr r g) := by
   cases r with
   | call k addr value input gas ro' rs io => exact evmCall_good hP hr _ _ _ _ _ _ _ _ _ _ _ hg
   | create salt value init gas => exact evmCreate_good hP cx hr _ _ _ _ _ _ _ _ hg
+  | authcall auth addr value input gas ro' rs => exact evmAuthCall_good hP cx hr _ _ _ _ _ _ _ _ hg
 
 /-! ## the loop: gas only decreases, and `2·gas + stack height + 1` loop iterations suffice -/
 
@@ -628,19 +649,32 @@ theorem phi_decreases (cx : Ctx) (fr : Frame) (g : Global) (info : OpInfo) (fr1 
 theorem getD_take_lt (s : List Word) (n i : Nat) (h : i < n) : (s.take n).getD i 0 = s.getD i 0 := by
   simp [List.getD_eq_getElem?_getD, h]
 
+/-- AUTHCALL charges its base cost plus the forwarded gas -/
+theorem dynGas_authcall_cgt (gc : GasCfg) (s : List Word) (m m' : Mem) (ms gas self : Nat) (g g' : Global)
+    (cost cgt : Nat) (h : dynGas gc .authcall s m ms gas self g = .ok cost m' g' cgt) : cgt ≤ cost := by
+  simp only [dynGas] at h
+  repeat' split at h
+  all_goals (first | (cases h; done) | skip)
+  all_goals
+    rename_i hov
+    have := safeAdd_ok (Bool.eq_false_iff.mpr hov)
+    simp only [DynRes.ok.injEq] at h
+    obtain ⟨hc, _, _, hg⟩ := h
+    omega
+
 /-- gas accounting around a nested call / create -/
 theorem invoke_gas (cx : Ctx) (fr : Frame) (g : Global) (info : OpInfo) (fr1 : Frame) (args : List Word)
     (g1 : Global) (cgt : Nat) (req : Req) (d : Nat)
     (hp : PreOk cx fr g info fr1 args g1 cgt) (ha : entryAll info = true) (hlt : fr.gas < 2 ^ 64)
     (hi : InvokeOk info.exec fr1 args cgt req d) :
-    d ≤ fr1.gas ∧ reqGas req + 700 ≤ fr.gas ∧ (fr1.gas - d) + reqGas req + 700 ≤ fr.gas ∧
+    d ≤ fr1.gas ∧ reqGas req + 100 ≤ fr.gas ∧ (fr1.gas - d) + reqGas req + 100 ≤ fr.gas ∧
     info.exec.pushes = 1 ∧ 3 ≤ info.exec.pops := by
   unfold entryAll at ha
   simp only [Bool.and_eq_true, decide_eq_true_eq] at ha
   obtain ⟨⟨⟨⟨⟨⟨⟨⟨⟨_, _⟩, _⟩, _⟩, hcc⟩, _⟩, hcd⟩, _⟩, _⟩, _⟩ := ha
   obtain ⟨memorySize, cost, m', hdyn, hgas, _, _⟩ := hp.dyn
   have hf1 : fr1.gas < 2 ^ 64 := by omega
-  rcases hi with ⟨he, hd, hrg, _⟩ | ⟨k, he, hd, _, hrg⟩
+  rcases hi with ⟨he, hd, hrg, _⟩ | ⟨k, he, hd, _, hrg⟩ | ⟨he, hd, hrg⟩
   · -- create / create2
     have hw : wsub fr1.gas (fr1.gas / 64) = fr1.gas - fr1.gas / 64 := wsub_exact _ _ hf1 (by omega)
     have hconst : 32000 ≤ info.constGas := by
@@ -685,6 +719,20 @@ theorem invoke_gas (cx : Ctx) (fr : Frame) (g : Global) (info : OpInfo) (fr1 : F
       have := wadd_le cgt 2300
       rw [hrg]
       refine ⟨by omega, by omega, by omega, hpp⟩
+  · -- AUTHCALL: no stipend, forwarded gas is part of the dynamic cost
+    have hconst : 100 ≤ info.constGas := by
+      unfold entryCallCosts at hcc
+      rw [he] at hcc; simp at hcc; exact hcc.1.1.1
+    have hpp : info.exec.pushes = 1 ∧ 3 ≤ info.exec.pops := by
+      rw [he]; simp [Exec.pushes, Exec.pops]
+    have hdn : info.dyn = .authcall := by
+      unfold entryCallDyn at hcd
+      rw [he] at hcd
+      simpa using hcd
+    rw [hdn] at hdyn
+    have hcgt := dynGas_authcall_cgt _ _ _ _ _ _ _ _ _ _ _ hdyn
+    rw [hd, hrg]
+    refine ⟨by omega, by omega, by omega, hpp⟩
 
 theorem errPred_ne : ErrPred (fun e => e ≠ some .outOfFuel) := fun _ h => h
 theorem errPred_true : ErrPred (fun _ => True) := fun _ _ => trivial
@@ -735,7 +783,7 @@ theorem run_main (cx : Ctx) (ht : TableOk cx.table) :
         apply finishStep_ok
         · exact hf1
         · intro hrev hhalt fr3 g3 hg3 hs3
-          have hdec := phi_decreases cx fr g info fr1 args g1 cgt hp ha hrev hhalt
+          have hdec := phi_decreases cx fr _ info fr1 args g1 cgt hp ha hrev hhalt
           have := ih depth ro fr3 g3 (by rw [hg3]; simp only; omega)
           unfold RunOk at this ⊢
           rw [hg3, hs3] at this
@@ -745,7 +793,7 @@ theorem run_main (cx : Ctx) (ht : TableOk cx.table) :
       · -- nested call / create
         rename_i req deduct g2 hex
         have hi := execOp_invoke _ _ _ _ _ _ _ _ _ _ hex
-        obtain ⟨hd, hchild, hback, hpush, hpops⟩ := invoke_gas cx fr g info fr1 args g1 cgt req deduct hp ha hlt hi
+        obtain ⟨hd, hchild, hback, hpush, hpops⟩ := invoke_gas cx fr _ info fr1 args g1 cgt req deduct hp ha hlt hi
         simp only
         -- the callee returns at most what it was given (whatever the fuel)
         have hrunA : GoodRun (fun _ => True) (runLoop cx fuel) (reqGas req) := by
